@@ -94,7 +94,7 @@ def main():
         })
     m = {
         'version': 1,
-        'setup_cmd': "/venv/bin/python -c \"import sys; sys.path.insert(0, '/repo'); import numpy, scipy, pandas, p_tqdm, src.program, src.compare_alignments; print('setup ok')\"",
+        'setup_cmd': "/venv/bin/python -c \"import sys; sys.path.insert(0, '/repo'); import numpy, scipy, pandas, p_tqdm, dill, src.program, src.compare_alignments; print('setup ok')\"",
         'hooks': {'guard': 'COMA_VERIF', 'enable': 'no source hooks: all instrumentation is installed from the harness at run time (attribute wrappers, the repository\'s own Extension bus); COMA_VERIF=1 is exported by the harness but read by nothing in /repo',
                   'baseline_off_cmd': BASE, 'source_commits': [], 'add_only': True},
         'engines': [{'name': 'vf', 'path': 'vf/', 'serves_properties': [c['property_id'] for c in checks],
